@@ -310,17 +310,20 @@ func (s *Stream) close() error {
 			if s.session.IsClosed() {
 				return nil
 			}
-			// notify peer
-			err := s.session.sendQueue().put(queueElement{seqID: s.id, status: uint32(streamClosed)})
-			if err != nil {
+			// notify peer. once the stream is in fallback state its data travels through the connection,
+			// so the close notification must follow it there, otherwise it could overtake the data.
+			if !s.inFallbackState {
+				err := s.session.sendQueue().put(queueElement{seqID: s.id, status: uint32(streamClosed)})
+				if err == nil {
+					return s.session.wakeUpPeer()
+				}
 				atomic.AddUint64(&s.session.stats.queueFullErrorCount, 1)
-				// notify fallback
-				var streamCloseEvent [headerSize + 4]byte
-				header(streamCloseEvent[:]).encode(headerSize+4, s.session.communicationVersion, typeStreamClose)
-				binary.BigEndian.PutUint32(streamCloseEvent[headerSize:], s.id)
-				return s.session.waitForSend(nil, streamCloseEvent[:])
 			}
-			return s.session.wakeUpPeer()
+			// notify fallback
+			var streamCloseEvent [headerSize + 4]byte
+			header(streamCloseEvent[:]).encode(headerSize+4, s.session.communicationVersion, typeStreamClose)
+			binary.BigEndian.PutUint32(streamCloseEvent[headerSize:], s.id)
+			return s.session.waitForSend(nil, streamCloseEvent[:])
 		}
 	}
 	return nil
